@@ -188,6 +188,10 @@ func GenPlan(prop string, seed int64, tier string, guards map[string]bool) *Plan
 	}
 	// drawn last, from its own stream: how the handler sees the end of a body
 	p.Config.LateEOF = rand.New(rand.NewSource(seed^0x6c617465)).Intn(4) == 0
+	// likewise: bucket-in-the-Host-header addressing next to path style
+	if prop != "C09" {
+		p.Config.HostBase = rand.New(rand.NewSource(seed^0x686f7374)).Intn(6) == 0
+	}
 	return p
 }
 
